@@ -229,13 +229,16 @@ func (m *runtimeContextManager) RequireBytes(n int) (mem uint64) {
 }
 
 func (m *runtimeContextManager) ReleaseMem(memAmount uint64) {
-	// TODO: think about what to do when memory is released when unwinding from
-	// a quota exceeded error
+	// Memory can be released in a different context from the one it was
+	// required in (e.g. a coroutine started in a parent context and ending in a
+	// child context, or when unwinding from a quota exceeded error), so the
+	// amount released may exceed what this context has accounted for.  In that
+	// case the counter saturates at zero.
 	if m.hardLimits.Memory > 0 {
 		if memAmount <= m.usedResources.Memory {
 			m.usedResources.Memory -= memAmount
 		} else {
-			panic("Too much mem released")
+			m.usedResources.Memory = 0
 		}
 	}
 }
